@@ -35,6 +35,8 @@ def classes_of(rec):
         c.append("shared_worker")
     if spec["flags"].get("loop_timeout") is not None:
         c.append("timeout_set")
+    if spec.get("any_capacity"):
+        c.append("any_id_capacity_instance")
     return sorted(set(c))
 
 
